@@ -759,6 +759,9 @@ def run(ctx):
     # ------------------------------------------------------------------ 3f. duplicated equations, non-dyadic entries
     duplicated_rows_check(ctx, exe, violation, quick)
 
+    # ------------------------------------------------------------------ 3g. structured inputs, structured networks
+    structured_inputs_check(ctx, exe, violation, quick)
+
     # ------------------------------------------------------------------ 4. least squares
     ls_check(ctx, drv, exe, run_both, violation, quick)
 
@@ -1236,6 +1239,378 @@ def det_laplace_check(ctx, exe, violation, quick):
                   "Coq determinant (Laplace / LU model) differs from the exact determinant on a %dx%d matrix" % (cases[k][0], cases[k][0]),
                   {"n": cases[k][0], "A": [[(str(a), str(b)) for (a, b) in row] for row in cases[k][2]],
                    "exact_det": [str(exp[k][0]), str(exp[k][1])]})
+
+
+# ---------------------------------------------------------------------------- structured inputs
+def _fr(m):
+    return [[(Fraction(a), Fraction(b)) for (a, b) in row] for row in m]
+
+
+def _mm(A, B):
+    n, k, m = len(A), len(B), len(B[0])
+    Z = (Fraction(0), Fraction(0))
+    out = [[Z] * m for _ in range(n)]
+    for i in range(n):
+        for j in range(m):
+            acc = Z
+            for t in range(k):
+                if A[i][t] != Z and B[t][j] != Z:
+                    acc = cadd(acc, cmul(A[i][t], B[t][j]))
+            out[i][j] = acc
+    return out
+
+
+def _entry(rng, kind=None):
+    """a nonzero structured entry: purely real, purely imaginary, or (less often) both parts nonzero"""
+    kind = kind or rng.choice(("re", "re", "im", "im", "cx"))
+    v = rng.choice([-9, -8, -5, -3, -2, -1, 1, 2, 3, 4, 7, 8])
+    w = rng.choice([-8, -4, -3, -1, 1, 2, 5, 6])
+    return {"re": (Fraction(v), Fraction(0)), "im": (Fraction(0), Fraction(v)), "cx": (Fraction(v), Fraction(w))}[kind]
+
+
+def _structured_matrix(rng, n, shape):
+    """n x n with exact zeros in patterned positions; entries purely real / purely imaginary / complex"""
+    Z = (Fraction(0), Fraction(0))
+    A = [[Z] * n for _ in range(n)]
+    perm = list(range(n))
+    if shape == "upper":
+        for i in range(n):
+            for j in range(i, n):
+                if j == i or rng.random() < 0.6:
+                    A[i][j] = _entry(rng)
+    elif shape == "lower":
+        for i in range(n):
+            for j in range(0, i + 1):
+                if j == i or rng.random() < 0.6:
+                    A[i][j] = _entry(rng)
+    elif shape == "banded":
+        for i in range(n):
+            for j in range(max(0, i - 1), min(n, i + 2)):
+                A[i][j] = _entry(rng, "re" if i == j else None)
+            A[i][i] = (A[i][i][0] * 4, Fraction(rng.choice([0, 0, 3])))
+    elif shape == "perm":
+        rng.shuffle(perm)
+        for i in range(n):
+            A[i][perm[i]] = _entry(rng)
+    elif shape == "perm_plus":
+        rng.shuffle(perm)
+        for i in range(n):
+            A[i][perm[i]] = _entry(rng)
+            A[i][perm[i]] = (A[i][perm[i]][0] * 5, A[i][perm[i]][1] * 5)
+            if n > 1 and rng.random() < 0.7:
+                A[i][rng.randrange(n)] = _entry(rng) if rng.random() < 0.5 else A[i][perm[i]]
+    elif shape == "sparse":
+        for i in range(n):
+            for j in range(n):
+                if rng.random() < 0.4:
+                    A[i][j] = _entry(rng)
+        for i in range(n):
+            A[i][i] = _entry(rng, rng.choice(("re", "im")))
+    elif shape == "imag":          # every entry purely imaginary (a lossless reactance matrix)
+        for i in range(n):
+            for j in range(n):
+                if i == j or rng.random() < 0.7:
+                    A[i][j] = _entry(rng, "im")
+    elif shape == "real":
+        for i in range(n):
+            for j in range(n):
+                if i == j or rng.random() < 0.7:
+                    A[i][j] = _entry(rng, "re")
+    return A
+
+
+def _structured_rhs(rng, rows, cols):
+    """rows x cols; each ROW has leading zeros, then a first nonzero that is purely imaginary or purely real,
+    then mixed entries, possibly trailing zeros; each COLUMN likewise for the transposed use"""
+    Z = (Fraction(0), Fraction(0))
+    B = [[Z] * cols for _ in range(rows)]
+    for i in range(rows):
+        lead = rng.randrange(cols)
+        trail = rng.randrange(cols - lead)
+        first = True
+        for j in range(lead, cols - trail):
+            if first:
+                B[i][j] = _entry(rng, rng.choice(("im", "im", "re")))
+                first = False
+            elif rng.random() < 0.75:
+                B[i][j] = _entry(rng)
+    return B
+
+
+def _max_err(xs, exact, rows, cols):
+    """max |x - x*| and max |x*| (xs row-major float pairs, exact a matrix of Fraction pairs)"""
+    worst = mag = 0.0
+    for i in range(rows):
+        for j in range(cols):
+            e = exact[i][j]
+            ef = (float(e[0]), float(e[1]))
+            v = xs[i * cols + j] if i * cols + j < len(xs) else (float("nan"), float("nan"))
+            d = cabsf((v[0] - ef[0], v[1] - ef[1]))
+            if not (d <= worst):
+                worst = d
+            mag = max(mag, cabsf(ef))
+    return worst, mag
+
+
+def _exact_skeel(A, Ainv):
+    n = len(A)
+    return skeel_cond(A, [v for row in Ainv for v in row], n)
+
+
+def _networks(rng):
+    """physically structured multiports with exact Gaussian-rational parameters:
+    (name, kind 'Y' | 'Z' | 'S', matrix, singular?) -- Y or Z singular while I + z0 Y resp. Z + z0 is regular"""
+    def imp():                       # an impedance with positive real part or purely reactive
+        c = rng.random()
+        if c < 0.35:
+            return (Fraction(rng.choice([5, 10, 25, 50, 75, 100, 200])), Fraction(0))
+        if c < 0.6:
+            return (Fraction(0), Fraction(rng.choice([-200, -80, -25, -8, 8, 25, 60, 150])))
+        return (Fraction(rng.choice([5, 10, 25, 50, 100])), Fraction(rng.choice([-100, -25, -8, 8, 25, 50])))
+    one = (Fraction(1), Fraction(0))
+
+    def adm(z):
+        return cdivq(one, z)
+    Z0 = (Fraction(0), Fraction(0))
+
+    def from_branches(n, branches, shunts):
+        """nodal admittance matrix: branches (i, j, y) between ports, shunts (i, y) to ground"""
+        Y = [[Z0] * n for _ in range(n)]
+        for (i, j, y) in branches:
+            Y[i][i] = cadd(Y[i][i], y)
+            Y[j][j] = cadd(Y[j][j], y)
+            Y[i][j] = csub(Y[i][j], y)
+            Y[j][i] = csub(Y[j][i], y)
+        for (i, y) in shunts:
+            Y[i][i] = cadd(Y[i][i], y)
+        return Y
+    nets = []
+    nets.append(("series element (2-port)", "Y", from_branches(2, [(0, 1, adm(imp()))], []), True))
+    nets.append(("series reactance -8j (2-port)", "Y", from_branches(2, [(0, 1, adm((Fraction(0), Fraction(-8))))], []), True))
+    nets.append(("delta (3-port)", "Y", from_branches(3, [(0, 1, adm(imp())), (1, 2, adm(imp())), (0, 2, adm(imp()))], []), True))
+    nets.append(("floating pairs (4-port)", "Y", from_branches(4, [(0, 1, adm(imp())), (2, 3, adm(imp()))], []), True))
+    nets.append(("ring (4-port)", "Y", from_branches(4, [(0, 1, adm(imp())), (1, 2, adm(imp())), (2, 3, adm(imp())), (3, 0, adm(imp()))], []), True))
+    nets.append(("series element + one shunt (3-port star leg)", "Y",
+                 from_branches(3, [(0, 1, adm(imp())), (1, 2, adm(imp()))], [(2, adm(imp()))]), False))
+    nets.append(("pi network (2-port)", "Y", from_branches(2, [(0, 1, adm(imp()))], [(0, adm(imp())), (1, adm(imp()))]), False))
+    z = imp()
+    nets.append(("shunt element (2-port)", "Z", [[z, z], [z, z]], True))
+    z1, z2, z3 = imp(), imp(), imp()
+    nets.append(("T network (2-port)", "Z", [[cadd(z1, z3), z3], [z3, cadd(z2, z3)]], False))
+    z = imp()
+    nets.append(("common shunt (3-port)", "Z", [[z] * 3 for _ in range(3)], True))
+    # Z = 50 + jX on the diagonal in a 50 ohm system: Z - z0 has a purely imaginary diagonal
+    x1, x2, xm = rng.choice([25, -8, 40]), rng.choice([-25, 8, 60]), rng.choice([5, -3, 0])
+    nets.append(("50 + jX diagonal (2-port)", "Z", [[(Fraction(50), Fraction(x1)), (Fraction(0), Fraction(xm))],
+                                                   [(Fraction(0), Fraction(xm)), (Fraction(50), Fraction(x2))]], False))
+    nets.append(("reactance first row -8j (3-port)", "Z",
+                 [[(Fraction(0), Fraction(-8)), (Fraction(0), Fraction(3)), Z0],
+                  [(Fraction(0), Fraction(3)), (Fraction(75), Fraction(0)), (Fraction(10), Fraction(0))],
+                  [Z0, (Fraction(10), Fraction(0)), (Fraction(50), Fraction(25))]], False))
+    k = rng.choice([2, 3, 5])
+    d = Fraction(k * k + 1)
+    nets.append(("ideal transformer %d:1" % k, "S", [[(Fraction(k * k - 1) / d, Fraction(0)), (Fraction(2 * k) / d, Fraction(0))],
+                                                     [(Fraction(2 * k) / d, Fraction(0)), (Fraction(1 - k * k) / d, Fraction(0))]], True))
+    return nets
+
+
+def structured_inputs_check(ctx, exe, violation, quick):
+    """STRUCTURED inputs for every routine (review of seeding round 5: random complex matrices never have an entry
+    with an exactly zero real part next to a nonzero imaginary part, nor a singular Y with a regular I + z0 Y).
+    (A) _vnacommon_lu / _mldivide / _mrdivide / _minverse / _qrsolve and vnaconv_ztoyn / ytozn / ztosn / ytosn on
+        nonsingular matrices with exact zeros in patterned positions (upper, lower, banded, permutation-like, sparse)
+        and entries that are purely real or purely imaginary; right-hand sides whose rows have leading zeros, a first
+        nonzero element that is purely imaginary, trailing zeros.  Oracle: the defining linear system solved exactly
+        over the Gaussian rationals; accepted: |x - x*| <= 1e-9 max|x*| on inputs of exact Skeel condition <= 1e4, and
+        for mldivide / mrdivide / minverse the residual of the defining system <= 1e3 n eps x (|B_ik| + row norm of A x
+        largest |X| of the column) (property text: residual proportional to machine precision times the scale).
+    (B) vnaconv_ytosn / ztosn / ytozin / ztozin / stozin / ytozn / ztoyn on physically structured networks (series
+        element, delta, floating pairs, ring, shunt element, common shunt, T, pi, reactive diagonals, ideal
+        transformer): Y or Z singular while the function's own divisor (I + z0 Y, Z + z0) is regular.  Oracle: S =
+        (I - z0 Y)(I + z0 Y)^-1 resp. (Z - z0)(Z + z0)^-1 (equal real z0), zin_i = 1 / W_ii - z0_i with W = Y (I + Z0 Y)^-1
+        resp. (Z + Z0)^-1 (any z0), computed exactly; 1e-9 relative.  Where the function's divisor IS singular
+        (ytozn of a series element, stozn of an ideal transformer) the output must be non-finite or astronomically
+        large."""
+    rng = ctx.rng
+    Z = (Fraction(0), Fraction(0))
+    one = (Fraction(1), Fraction(0))
+    lines, meta = [], []          # meta: (name, what, rows, cols, exact matrix or None, replay, residual spec)
+    shapes = ("upper", "lower", "banded", "perm", "perm_plus", "sparse", "imag", "real")
+    nmax = 5 if quick else 8
+    reps = 2 if quick else 8
+    ident = lambda n: [[one if i == j else Z for j in range(n)] for i in range(n)]
+    for n in range(1, nmax + 1):
+        for shape in shapes:
+            for _ in range(reps):
+                for attempt in range(20):
+                    A = _structured_matrix(rng, n, shape)
+                    Ainv = exact_inverse(A)
+                    if Ainv is not None and _exact_skeel(A, Ainv) <= 1e4:
+                        break
+                else:
+                    continue
+                B = _structured_rhs(rng, n, 2)
+                Bt = [list(c) for c in zip(*_structured_rhs(rng, n, 2))]       # columns structured as well
+                Brd = _structured_rhs(rng, 2, n)
+                rp = {"n": n, "shape": shape, "A": [[(str(a), str(b)) for (a, b) in row] for row in A]}
+                fa = _fmat(A)
+                lines.append("lu %d %s" % (n, fa))
+                meta.append(("_vnacommon_lu", "det", 1, 1, [[exact_det(A)]], rp, None))
+                for Bx, tag in ((B, "B"), ([list(r) for r in zip(*Bt)], "B'")):
+                    lines.append("mldivide %d 2 %s %s" % (n, fa, _fmat(Bx)))
+                    meta.append(("_vnacommon_mldivide", "x", n, 2, _mm(Ainv, Bx), dict(rp, B=[[(str(a), str(b)) for (a, b) in row] for row in Bx]), ("ax", A, Bx)))
+                lines.append("mrdivide 2 %d %s %s" % (n, _fmat(Brd), fa))
+                meta.append(("_vnacommon_mrdivide", "x", 2, n, _mm(Brd, Ainv), dict(rp, B=[[(str(a), str(b)) for (a, b) in row] for row in Brd]), ("xa", A, Brd)))
+                lines.append("minverse %d %s" % (n, fa))
+                meta.append(("_vnacommon_minverse", "x", n, n, Ainv, rp, ("ax", A, ident(n))))
+                lines.append("qrsolve %d %d 2 %s %s" % (n, n, fa, _fmat(B)))
+                meta.append(("_vnacommon_qrsolve", "x", n, 2, _mm(Ainv, B), dict(rp, B=[[(str(a), str(b)) for (a, b) in row] for row in B]), None))
+                lines.append("ztoyn %d %s" % (n, fa))
+                meta.append(("vnaconv_ztoyn", "x", n, n, Ainv, rp, None))
+                lines.append("ytozn %d %s" % (n, fa))
+                meta.append(("vnaconv_ytozn", "x", n, n, Ainv, rp, None))
+                # A as a Z (resp. Y) matrix in a 50 ohm system: S = (Z - 50)(Z + 50)^-1, (I - 50 Y)(I + 50 Y)^-1
+                r50 = (Fraction(50), Fraction(0))
+                Zp = [[cadd(A[i][j], r50) if i == j else A[i][j] for j in range(n)] for i in range(n)]
+                Zm = [[csub(A[i][j], r50) if i == j else A[i][j] for j in range(n)] for i in range(n)]
+                Zpi = exact_inverse(Zp)
+                z0l = [[(50.0, 0.0)] * n]
+                if Zpi is not None and _exact_skeel(Zp, Zpi) <= 1e4:
+                    lines.append("ztosn %d %s %s" % (n, fa, _fmat(z0l)))
+                    meta.append(("vnaconv_ztosn", "x", n, n, _mm(Zm, Zpi), dict(rp, z0="50 (all ports)"), None))
+                Yp = [[cadd(cmul(r50, A[i][j]), one) if i == j else cmul(r50, A[i][j]) for j in range(n)] for i in range(n)]
+                Ym = [[csub(one, cmul(r50, A[i][j])) if i == j else csub(Z, cmul(r50, A[i][j])) for j in range(n)] for i in range(n)]
+                Ypi = exact_inverse(Yp)
+                if Ypi is not None and _exact_skeel(Yp, Ypi) <= 1e4:
+                    lines.append("ytosn %d %s %s" % (n, fa, _fmat(z0l)))
+                    meta.append(("vnaconv_ytosn", "x", n, n, _mm(Ym, Ypi), dict(rp, z0="50 (all ports)"), None))
+    # (B) networks
+    for rep in range(3 if quick else 12):
+        for (name, kind, Mx, sing) in _networks(rng):
+            n = len(Mx)
+            rp = {"network": name, "parameters": kind, "matrix": [[(str(a), str(b)) for (a, b) in row] for row in Mx]}
+            fm = _fmat(Mx)
+            r50 = (Fraction(50), Fraction(0))
+            z0eq = [[(50.0, 0.0)] * n]
+            z0mix = [[rng.choice([(50.0, 0.0), (75.0, 0.0), (25.0, 10.0), (100.0, -20.0)]) for _ in range(n)]]
+            z0mf = [(Fraction(a), Fraction(b)) for (a, b) in z0mix[0]]
+            if kind == "Y":
+                Yp = [[cadd(cmul(r50, Mx[i][j]), one) if i == j else cmul(r50, Mx[i][j]) for j in range(n)] for i in range(n)]
+                Ym = [[csub(one, cmul(r50, Mx[i][j])) if i == j else csub(Z, cmul(r50, Mx[i][j])) for j in range(n)] for i in range(n)]
+                Ypi = exact_inverse(Yp)
+                if Ypi is not None and _exact_skeel(Yp, Ypi) <= 1e4:
+                    lines.append("ytosn %d %s %s" % (n, fm, _fmat(z0eq)))
+                    meta.append(("vnaconv_ytosn", "x", n, n, _mm(Ym, Ypi), dict(rp, z0="50 (all ports)"), None))
+                D = [[cadd(cmul(z0mf[i], Mx[i][j]), one) if i == j else cmul(z0mf[i], Mx[i][j]) for j in range(n)] for i in range(n)]
+                Di = exact_inverse(D)
+                if Di is not None and _exact_skeel(D, Di) <= 1e4:
+                    W = _mm(Mx, Di)
+                    if all(W[i][i] != Z for i in range(n)):
+                        zin = [[csub(cdivq(one, W[i][i]), z0mf[i]) for i in range(n)]]
+                        lines.append("ytozin %d %s %s" % (n, fm, _fmat(z0mix)))
+                        meta.append(("vnaconv_ytozin", "x", 1, n, zin, dict(rp, z0=[list(v) for v in z0mix[0]]), None))
+                if sing:
+                    lines.append("ytozn %d %s" % (n, fm))
+                    meta.append(("vnaconv_ytozn", "singular", n, n, None, rp, None))
+                else:
+                    Mi = exact_inverse(Mx)
+                    if Mi is not None and _exact_skeel(Mx, Mi) <= 1e4:
+                        lines.append("ytozn %d %s" % (n, fm))
+                        meta.append(("vnaconv_ytozn", "x", n, n, Mi, rp, None))
+            elif kind == "Z":
+                Zp = [[cadd(Mx[i][j], r50) if i == j else Mx[i][j] for j in range(n)] for i in range(n)]
+                Zm = [[csub(Mx[i][j], r50) if i == j else Mx[i][j] for j in range(n)] for i in range(n)]
+                Zpi = exact_inverse(Zp)
+                if Zpi is not None and _exact_skeel(Zp, Zpi) <= 1e4:
+                    lines.append("ztosn %d %s %s" % (n, fm, _fmat(z0eq)))
+                    meta.append(("vnaconv_ztosn", "x", n, n, _mm(Zm, Zpi), dict(rp, z0="50 (all ports)"), None))
+                D = [[cadd(Mx[i][j], z0mf[i]) if i == j else Mx[i][j] for j in range(n)] for i in range(n)]
+                Di = exact_inverse(D)
+                if Di is not None and _exact_skeel(D, Di) <= 1e4 and all(Di[i][i] != Z for i in range(n)):
+                    zin = [[csub(cdivq(one, Di[i][i]), z0mf[i]) for i in range(n)]]
+                    lines.append("ztozin %d %s %s" % (n, fm, _fmat(z0mix)))
+                    meta.append(("vnaconv_ztozin", "x", 1, n, zin, dict(rp, z0=[list(v) for v in z0mix[0]]), None))
+                if sing:
+                    lines.append("ztoyn %d %s" % (n, fm))
+                    meta.append(("vnaconv_ztoyn", "singular", n, n, None, rp, None))
+                else:
+                    Mi = exact_inverse(Mx)
+                    if Mi is not None and _exact_skeel(Mx, Mi) <= 1e4:
+                        lines.append("ztoyn %d %s" % (n, fm))
+                        meta.append(("vnaconv_ztoyn", "x", n, n, Mi, rp, None))
+            else:   # S of an ideal transformer: zin = z0 (1 + Sii) / (1 - Sii); no Z matrix exists
+                zin = [[cdivq(cmul(r50, cadd(one, Mx[i][i])), csub(one, Mx[i][i])) for i in range(n)]]
+                lines.append("stozin %d %s %s" % (n, fm, _fmat(z0eq)))
+                meta.append(("vnaconv_stozin", "x", 1, n, zin, dict(rp, z0="50 (all ports)"), None))
+                lines.append("stozn %d %s %s" % (n, fm, _fmat(z0eq)))
+                meta.append(("vnaconv_stozn", "singular", n, n, None, rp, None))
+    rc, out, err = vplib.sh([exe], input="\n".join(lines) + "\n", timeout=900, env=ctx.run_env())
+    if rc != 0:
+        sig = vplib.asan_signature(err) or {"kind": "fault", "error": "exit %d" % rc, "function": None}
+        violation(sig, "lu_harness failed on structured inputs: " + err[-300:], {"stderr": err[-3000:]})
+        return
+    outl = out.strip().split("\n")
+    okn = len(outl) == len(lines)
+    ctx.obligation("tie:structured inputs ran (%d calls)" % len(lines), okn, "")
+    if not okn:
+        return
+    bad = {}
+    counts = {}
+    for (name, what, rows, cols, exact, rp, resid), ln in zip(meta, outl):
+        counts[name] = counts.get(name, 0) + 1
+        ctx.count(("structured", name, rp.get("shape", rp.get("network")), rp.get("n", rows)))
+        r = parse_c_line(ln)
+        xs = r.get("x", [])
+        if what == "singular":
+            big = max((cabsf(v) for v in xs if finite(v)), default=0.0)
+            if all(finite(v) for v in xs) and big < HUGE * 50.0:
+                bad.setdefault(name, []).append((rp, "singular divisor: finite output of ordinary size %s" % (xs[:2],), "non-finite or astronomically large output"))
+            continue
+        if what == "det":
+            xs = [r.get("det", (float("nan"), float("nan")))]
+        worst, mag = _max_err(xs, exact, rows, cols)
+        if not (worst <= 1e-9 * max(mag, 1e-300)):
+            bad.setdefault(name, []).append((rp, "differs from the exact solution of the defining system by %.3g (largest exact entry %.3g); C: %s"
+                                             % (worst, mag, xs[:3]), "within 1e-9 of %s" % ([(str(a), str(b)) for (a, b) in exact[0][:3]],)))
+            continue
+        if resid is not None:
+            # residual of the defining system relative to "machine precision times the problem's scale": entry (i,k) of
+            # A X - B against |B_ik| + (row norm of A) * (largest |X| of the column) -- invariant under scaling a row of
+            # (A, B).  (The componentwise ratio |A X - B| / (|A||X| + |B|) is not used: with exact zeros in patterned
+            # positions its denominator can consist of rounding noise alone.)
+            kind, A, Bx = resid
+            na = len(A)
+            X = to_fr(xs)
+            be = 0.0
+            if kind == "ax":
+                P = _mm(A, [[X[j * cols + k] for k in range(cols)] for j in range(na)])
+                for i in range(na):
+                    rn = sum(cabsf(v) for v in A[i])
+                    for k in range(cols):
+                        sc = cabsf(Bx[i][k]) + rn * max(cabsf(X[j * cols + k]) for j in range(na))
+                        num = cabsf(csub(P[i][k], Bx[i][k]))
+                        if num > 0.0:
+                            be = max(be, num / sc if sc > 0.0 else float("inf"))
+            else:
+                P = _mm([[X[i * na + j] for j in range(na)] for i in range(rows)], A)
+                for i in range(rows):
+                    xm = max(cabsf(X[i * na + j]) for j in range(na))
+                    for k in range(na):
+                        sc = cabsf(Bx[i][k]) + xm * sum(cabsf(A[j][k]) for j in range(na))
+                        num = cabsf(csub(P[i][k], Bx[i][k]))
+                        if num > 0.0:
+                            be = max(be, num / sc if sc > 0.0 else float("inf"))
+            if not (be <= BERR_C * na * EPS):
+                bad.setdefault(name, []).append((rp, "residual of the defining system %.3g x scale" % be, "<= %.3g" % (BERR_C * na * EPS)))
+    ctx.traces_validated += len(lines)
+    ctx.extra["structured_inputs"] = counts
+    ctx.obligation("tie:structured matrices / right-hand sides / networks: every routine agrees with the exact solution of its defining system (%d calls)"
+                   % len(lines), not bad, "; ".join("%s: %d cases, first: %s" % (k, len(v), v[0][1][:120]) for k, v in sorted(bad.items())))
+    for name, lst in sorted(bad.items()):
+        rp, obs, exp = lst[0]
+        violation({"kind": "structured-input", "function": name},
+                  "%s on a structured input (%s): %s (%d such cases)" % (name, rp.get("shape", rp.get("network")), obs, len(lst)),
+                  dict(rp, function=name, observed=obs, expected=exp))
 
 
 def duplicated_rows_check(ctx, exe, violation, quick):
